@@ -2,4 +2,13 @@ package main
 
 import "math/rand"
 
-func extraMode(mode string, n int, r *rand.Rand) bool { return false }
+func extraMode(mode string, n int, r *rand.Rand) bool {
+	switch mode {
+	case "replay12":
+		for _, x := range replay12() {
+			emit(x)
+		}
+		return true
+	}
+	return false
+}
